@@ -13,7 +13,7 @@ from .. import sym as S
 from .. import npx, ops as O
 from .. import programs as PR
 from ..runner import Unit
-from .common import plain
+from .common import mk_utpm, plain
 from .c03 import Namespace, make_consts, get_prog, record
 
 PROP = 'C05'
@@ -69,6 +69,14 @@ def same_kind(ctx, a, b, algopy, label):
 def h_replay(ctx, pname, rec, replays):
     algopy = symx.load_algopy()
     prog = get_prog(pname)
+    if 'ndonly' in prog.tags and ctx.mode == 'sym':
+        # a float64 buffer cannot hold symbolic entries: decided on the float build
+        ctx.fact(True, 'plain-array buffer program: decided on the float build')
+        make_value(ctx, prog, rec, 'r')                      # (the float run draws the same variables)
+        for k, kind in enumerate(replays):
+            make_value(ctx, prog, tuple(kind) if not isinstance(kind, str) else kind, 'x%d_' % k)
+        ctx.eq(S.const(0), S.const(0), 'replay == direct evaluation')
+        return
     A = Namespace(algopy, make_consts(ctx, prog))
     rec = tuple(rec) if not isinstance(rec, str) else rec
     arg, R = make_value(ctx, prog, rec, 'r')
@@ -103,7 +111,8 @@ def h_replay(ctx, pname, rec, replays):
     n0 = len(fl)
     junk = fx * 2.0 + fx        # tracing is off: must not be recorded
     ctx.fact(len(cg.functionList) == n0, 'nothing is recorded while recording is off')
-    ctx.fp('graph', [f.func.__name__ for f in fl])
+    if 'ndonly' not in prog.tags:
+        ctx.fp('graph', [f.func.__name__ for f in fl])
     # (b) replays
     handed_out = []
     for k, kind in enumerate(replays):
@@ -127,6 +136,8 @@ def h_replay(ctx, pname, rec, replays):
     for k, kind, out, want, xin, xwant in handed_out:
         ctx.eq(value_of(out, algopy), want, 'result of replay %d %s still intact after the later replays' % (k, kind))
         ctx.eq(value_of(xin, algopy), xwant, 'input of replay %d %s unchanged' % (k, kind))
+    if 'ndonly' in prog.tags:
+        del ctx.fps[:]        # (float-decided: there is no symbolic structure to compare with)
     ctx.eq(value_of(xr, algopy), np.array(plain(R) if rec == 'nd' else R, dtype=object), 'recording input unchanged by the replays')
 
 
@@ -198,6 +209,82 @@ def h_replay_int(ctx, pname):
             ctx.fact(False, '%s raised %s: %s' % (label, type(e).__name__, str(e).strip().splitlines()[-1][:120] if str(e).strip() else ''))
             continue
         ctx.eq(value_of(out, algopy), value_of(ref_rep, algopy), '%s == direct evaluation' % label)
+
+
+def h_scratch_polynomial(ctx, D, P):
+    """a scratch POLYNOMIAL (not traced, same (D, P) as the input) that the program refills before
+    each use as a constant operand -- of an operator and of a function taking its constant through
+    totype: a replay gives what the program gives when it is run directly"""
+    algopy = symx.load_algopy()
+    W = [O.make_input(ctx, O.Arg('utpm', (3,)), 'w%d' % i, D, P) for i in range(2)]
+    X = O.make_input(ctx, O.Arg('utpm', (3,)), 'x', D, P)
+    X2 = O.make_input(ctx, O.Arg('utpm', (3,)), 'z', D, P)
+
+    def prog(x):
+        scratch = mk_utpm(ctx, algopy, W[0] * 0)
+        y = x * 0.
+        for i in range(2):
+            scratch.data[...] = mk_utpm(ctx, algopy, W[i]).data
+            y = y + x * scratch
+            y = y + algopy.dot(scratch, x)
+            y = y + scratch / (x * x + 1.)
+        return y
+    cg = algopy.CGraph()
+    fx = algopy.Function(mk_utpm(ctx, algopy, X))
+    fy = prog(fx)
+    cg.trace_off()
+    cg.independentFunctionList = [fx]
+    cg.dependentFunctionList = [fy]
+    ctx.eq(plain(fy.x.data), plain(prog(mk_utpm(ctx, algopy, X)).data), 'value while recording == direct evaluation')
+    for k, Z in enumerate((X, X2)):
+        out = cg.function([mk_utpm(ctx, algopy, Z)])[0]
+        ctx.eq(plain(out.data), plain(prog(mk_utpm(ctx, algopy, Z)).data), 'replay %d == direct evaluation' % k)
+
+
+def h_replay_scalar_kinds(ctx, pname):
+    """scalar programs (a 0-d accumulator updated in place, a branch-free polynomial) recorded and
+    replayed with every scalar kind: python float, numpy.float64, 0-d array, 0-d polynomial --
+    all 16 record/replay combinations return what the program returns directly.  Concrete
+    numbers: decided on the float build."""
+    algopy = symx.load_algopy()
+    if ctx.mode == 'sym':
+        ctx.fact(True, 'concrete scalar kinds: decided on the float build')
+        ctx.eq(S.const(0), S.const(0), 'scalar replay == direct evaluation')
+        return
+
+    def acc(x):
+        s = x * 1.
+        s += x
+        s *= 3.
+        s -= 0.5
+        s /= 2.
+        return s * x
+
+    def poly(x):
+        return x * x * x - 2. * x + 1.
+    f = {'accumulator': acc, 'polynomial': poly}[pname]
+    kinds = [('python float', lambda v: float(v)), ('numpy.float64', lambda v: np.float64(v)), ('0-d array', lambda v: np.array(v)),
+             ('0-d polynomial', lambda v: algopy.UTPM(np.array([[v], [1.0], [0.25]])))]
+    for rname, rk in kinds:
+        for pname2, pk in kinds:
+            cg = algopy.CGraph()
+            fx = algopy.Function(rk(0.5))
+            try:
+                fy = f(fx)
+            except Exception as e:
+                ctx.fact(False, 'recording with a %s raised %s' % (rname, type(e).__name__))
+                continue
+            cg.trace_off()
+            cg.independentFunctionList = [fx]
+            cg.dependentFunctionList = [fy]
+            for v in (1.5, -0.75):
+                ref = f(pk(v))
+                try:
+                    out = cg.function([pk(v)])[0]
+                except Exception as e:
+                    ctx.fact(False, 'recorded with a %s, replayed with a %s: raised %s' % (rname, pname2, str(e).strip().splitlines()[-1][:100] if str(e).strip() else type(e).__name__))
+                    continue
+                ctx.eq(np.asarray(value_of(out, algopy), dtype=object), np.asarray(value_of(ref, algopy), dtype=object), 'recorded with a %s, replayed with a %s at %s' % (rname, pname2, v))
 
 
 def h_interleaved(ctx, rec, replay, what):
@@ -335,12 +422,17 @@ def units(tier, seed):
         combos = [('nd', [U22, 'nd']), (U11, ['nd', U32]), (U22, [U13]), ('nd', ['nd', 'nd'])]
     else:
         combos = [('nd', [U22, 'nd', U11]), (U11, ['nd', U32, U22]), (U22, [U13, 'nd', U22]), (U32, [U11, U32]), ('nd', ['nd', 'nd', U32])]
-    progs = [p for p in PR.catalogue() if not ('slow' in p.tags) and not any(t.startswith('fac:') for t in p.tags)]
+    progs = [p for p in PR.catalogue(ndonly=True) if not ('slow' in p.tags) and not any(t.startswith('fac:') for t in p.tags)]
     for prog in progs:
         kink = 'clip' in prog.tags or prog.name in ('absolute', 'sign') or 'lu' in prog.tags
         for i, (rec, reps) in enumerate(combos):
             if kink and i > 0:
                 continue
+            if 'ndonly' in prog.tags:
+                # a plain-array buffer that takes traced values: plain-array recording and replays only
+                if i > 0:
+                    continue
+                rec, reps = 'nd', ['nd', 'nd', 'nd']
             if 'utpmonly' in prog.tags:
                 # the program means something else on plain arrays (an element of an ndarray is a
                 # scalar copy, an element of a polynomial array is a view): polynomial operands only
@@ -379,6 +471,9 @@ def units(tier, seed):
         out.append(Unit('C05/zeros-ones-buffers/rec=%s,replay=%s' % (rec, rep), 'symx.props.c05', 'h_ones_zeros', {'rec': rec, 'replay': rep}, dict(opts)))
     for pn in ['1/x', 'x/x[::-1]', 'x/(1+x*x)', 'x*x', 'x**2', 'x**-1', 'x-const', 'const-x', 'sqrt', 'exp', 'reciprocal', 'x[0]*x[1]', 'buffer', 'sum', 'prod', 'augmented assignment on a 0-d accumulator', 'x*x']:
         out.append(Unit('C05/integer-typed arrays/%s' % pn, 'symx.props.c05', 'h_replay_int', {'pname': pn}, dict(opts)))
+    out.append(Unit('C05/scratch polynomial constant refilled between uses/D2,P2', 'symx.props.c05', 'h_scratch_polynomial', {'D': 2, 'P': 2}, dict(opts)))
+    for pn in ('accumulator', 'polynomial'):
+        out.append(Unit('C05/scalar kinds (python float, numpy.float64, 0-d array, 0-d polynomial)/%s' % pn, 'symx.props.c05', 'h_replay_scalar_kinds', {'pname': pn}, dict(opts)))
     for what in ('function', 'gradient', 'pushforward+pullback'):
         out.append(Unit('C05/another graph used while recording (%s)' % what, 'symx.props.c05', 'h_interleaved',
                         {'rec': 'nd', 'replay': U22, 'what': what}, dict(opts)))
